@@ -159,7 +159,8 @@ CORPUS = [
     "c18 u 3 C 0 1 1 0 E 1 01 1 0 E 2 11 1 0 D 0 X 3 XX 1 1 D 1 D 2 D 3",
 ]
 
-def flags(verd): return dict(x.split("=") for x in verd.split() if "=" in x)
+import re
+def flags(verd): return dict(m.groups() for m in re.finditer(r"(?:^| )([a-z]+)=(\d+)(?= |$)", verd if verd.startswith("OK") else ""))
 def nontrivial(c, impl, verd):
     w = flags(verd)
     return int(w.get("steps", 0)) >= 4 and int(w.get("released", 0)) >= 1 and " shared" in verd
